@@ -58,6 +58,7 @@ pub struct Dir {
 }
 
 thread_local! {
+    pub static GONE_LOOPS: std::cell::RefCell<Vec<String>> = std::cell::RefCell::new(Vec::new());
     pub static LOST_HINTS: std::cell::RefCell<Vec<String>> = std::cell::RefCell::new(Vec::new());
 }
 
@@ -1004,7 +1005,10 @@ fn process_fn(src_with_attrs: &str, d: &Dir, loc: &Located) -> FnOut {
         lf.braces.sort();
         for (k, t) in &d.loops {
             if *k == 0 || *k > lf.braces.len() {
-                die("anchor-lost", &format!("{}: loop {} not found ({} loops)", d.item, k, lf.braces.len()));
+                // the loop the invariant was written for no longer exists: the invariant is moot, the function's
+                // remaining obligations stand on their own (recorded, not fatal)
+                GONE_LOOPS.with(|l| l.borrow_mut().push(format!("{}: loop {}", d.item, k)));
+                continue;
             }
             let at = lf.braces[*k - 1].1;
             edits.push((at..at, format!("\n{}", t)));
